@@ -13,7 +13,8 @@ import NmVerif.Basic
   coordinate).  The offset/stride formulation the header uses is shown equal to this form in C06; here the
   correspondence run of C16 exercises it through every `multiply` of the pipelines.
 -/
-namespace NmVerif
+namespace NmVerif.MB
+open NmVerif
 
 /-- one aligned pair of extents: the `success` flag and the `max` of `broadcast_shape_impl` -/
 def bc1 (a b : Nat) : Option Nat := if a = b ∨ a = 1 ∨ b = 1 then some (max a b) else none
@@ -34,4 +35,4 @@ def broadcastShape (a b : Shape) : Option Shape := (bcRev a.reverse b.reverse).m
 def bcIdx (d : Idx) (s : Shape) : Idx :=
   List.zipWith (fun x e => if e = 1 then 0 else x) (d.drop (d.length - s.length)) s
 
-end NmVerif
+end NmVerif.MB
